@@ -844,42 +844,67 @@ Proof.
 Qed.
 
 (* ================= tolerance rescaling ================= *)
-(* io._allocate_compact_arrays: scale = nv / nvmax_pad; d.ctol = tol * scale; d.cls_tol = ls_tol * scale.
-   solve_compact runs the stock solver with m.nv := nvmax_pad, opt.tolerance := ctol: its termination
-   tests  _rescale(nvmax_pad, meaninertia, value) < ctol  are the full solve's  _rescale(nv, ..) < tol.
+(* solve_compact: ctol[i] = m.opt.tolerance[i] * (float(m.nv) / float(nvp))  (Model: compact_tolerance),
+   computed from the CURRENT Model at every solve; ls_tolerance is passed through unchanged.
+   The stock solver then runs with m.nv := nvmax_pad, opt.tolerance := ctol: its termination tests
+     _rescale(nvmax_pad, meaninertia, value) < ctol   are the full solve's   _rescale(nv, ..) < tol.
    [_rescale] is the definition regenerated from solver.py (Gen/solver_term.v), at the real instance. *)
 Theorem compact_tolerance_equiv : forall (nv nvp : Z) (mi value tol : R),
   (0 < nv)%Z -> (0 < nvp)%Z -> 0 < mi ->
-  (sltb (_rescale nvp mi value) (tol * (IZR nv / IZR nvp)) = true <-> sltb (_rescale nv mi value) tol = true).
+  (sltb (_rescale nvp mi value) (compact_tolerance tol nv nvp) = true <-> sltb (_rescale nv mi value) tol = true).
 Proof.
-  intros nv nvp mi value tol Hnv Hnvp Hmi. unfold _rescale. sR. rewrite !Rltb_true.
+  intros nv nvp mi value tol Hnv Hnvp Hmi. unfold _rescale, compact_tolerance. sR. rewrite !Rltb_true.
   assert (0 < IZR nv) by (apply IZR_lt; exact Hnv). assert (0 < IZR nvp) by (apply IZR_lt; exact Hnvp).
   replace (value / (mi * IZR nvp)) with (value / (mi * IZR nv) * (IZR nv / IZR nvp)) by (field; lra).
   assert (0 < IZR nv / IZR nvp) by (apply Rdiv_lt_0_compat; assumption).
   split; intros HH; nra.
 Qed.
 
-(* the linesearch gradient tolerance (_linesearch_iterative_kernel):
-     gtol = max(tolerance * ls_tolerance * snorm * (meaninertia * nv), 1e-6)
-   under solve_compact BOTH tolerance and ls_tolerance carry the factor nv/nvmax_pad while the
-   kernel's nv is nvmax_pad: the un-clamped value is (nv/nvmax_pad) times the full solve's. *)
-Definition ls_gtol_raw (nv : Z) (mi tol lstol snorm : R) : R := tol * lstol * snorm * (mi * IZR nv).
-
-Theorem compact_ls_gtol_scaled : forall (nv nvp : Z) (mi tol lstol snorm : R), (0 < nvp)%Z ->
-  ls_gtol_raw nvp mi (tol * (IZR nv / IZR nvp)) (lstol * (IZR nv / IZR nvp)) snorm
-  = IZR nv / IZR nvp * ls_gtol_raw nv mi tol lstol snorm.
+(* the linesearch gradient tolerance gtol = max(tolerance * ls_tolerance * snorm * meaninertia * nv, 1e-6)
+   (Model: ls_gtol) is ALSO the full solve's: the factor nv/nvmax_pad carried by the tolerance cancels the
+   kernel's nv = nvmax_pad, and ls_tolerance is not rescaled *)
+Theorem compact_ls_gtol_equiv : forall (nv nvp : Z) (mi tol lstol snorm : R), (0 < nvp)%Z ->
+  ls_gtol nvp mi (compact_tolerance tol nv nvp) lstol snorm = ls_gtol nv mi tol lstol snorm.
 Proof.
-  intros nv nvp mi tol lstol snorm Hnvp. unfold ls_gtol_raw.
-  assert (0 < IZR nvp) by (apply IZR_lt; exact Hnvp). field. lra.
+  intros nv nvp mi tol lstol snorm Hnvp. unfold ls_gtol, compact_tolerance.
+  assert (0 < IZR nvp) by (apply IZR_lt; exact Hnvp).
+  replace (smul (smul (smul (smul tol (sdiv (sofZ nv) (sofZ nvp))) lstol) snorm) (smul mi (sofZ nvp)))
+    with (smul (smul (smul tol lstol) snorm) (smul mi (sofZ nv))); [reflexivity|].
+  sR. field. lra.
 Qed.
 
-(* so, unlike the termination test, the compact linesearch stop is NOT the full solve's *)
-Theorem compact_ls_gtol_equiv_refuted : exists (nv nvp : Z) (mi tol lstol snorm : R),
+(* regression witness of the repaired defect: had ls_tolerance been rescaled by nv/nvmax_pad as well
+   (the code before the fix), the compact linesearch tolerance would differ from the full solve's *)
+Theorem ls_tolerance_must_not_be_rescaled : exists (nv nvp : Z) (mi tol lstol snorm : R),
   (0 < nv)%Z /\ nvp = nvmax_pad nv /\ 0 < mi /\
-  ls_gtol_raw nvp mi (tol * (IZR nv / IZR nvp)) (lstol * (IZR nv / IZR nvp)) snorm <> ls_gtol_raw nv mi tol lstol snorm.
+  ls_gtol nvp mi (compact_tolerance tol nv nvp) (compact_tolerance lstol nv nvp) snorm <> ls_gtol nv mi tol lstol snorm.
 Proof.
-  exists 8%Z, 16%Z, 1, 1, 1, 1. split; [lia|]. split; [reflexivity|]. split; [lra|]. unfold ls_gtol_raw. lra.
+  exists 8%Z, 16%Z, 1, 1, 1, 1. split; [lia|]. split; [reflexivity|]. split; [lra|].
+  unfold ls_gtol, compact_tolerance. sR.
+  replace (1 * (8 / 16) * (1 * (8 / 16)) * 1 * (1 * 16)) with 4 by field.
+  replace (1 * 1 * 1 * (1 * 8)) with 8 by field.
+  replace (1 / 1000000) with (/ 1000000) by field.
+  unfold Rltb. destruct (Rlt_dec 4 (/ 1000000)) as [A|A]; destruct (Rlt_dec 8 (/ 1000000)) as [B|B]; lra.
 Qed.
+
+(* ================= worlds without constraint rows (nefc = 0) ================= *)
+(* Over a sparse full model the sparse qfrc_constraint builders leave the buffer untouched when nefc = 0.
+   _solve passes `m.is_sparse or _sparse_compact(ctx)` to _solve_init_dof, so under solve_compact (dense
+   shadow model over a sparse full model) the compacted qfrc_constraint workspace is overwritten with
+   zeros whatever it held (it is allocated with wp.empty) ... *)
+Theorem nefc0_workspace_overwritten : forall {T} (zero : T) warmstart (ws sm garbage : list T) i d,
+  (i < length garbage)%nat ->
+  nth i (snd (solve_init_dof zero warmstart (init_dof_sparse_flag false true) 0 ws sm garbage)) d = zero.
+Proof.
+  intros T zero warmstart ws sm garbage i d Hi. unfold solve_init_dof, init_dof_sparse_flag. cbn [orb andb Z.eqb snd].
+  rewrite (nth_indep _ d zero) by (rewrite map_length; exact Hi).
+  rewrite (map_nth (fun _ => zero) garbage zero). reflexivity.
+Qed.
+
+(* ... whereas with the shadow model's own flag (False, the code before the fix) it would survive *)
+Theorem nefc0_dense_flag_keeps_workspace : forall {T} (zero : T) warmstart (ws sm garbage : list T),
+  snd (solve_init_dof zero warmstart false 0 ws sm garbage) = garbage.
+Proof. reflexivity. Qed.
 
 (* io._nvmax_pad: a multiple of 16 strictly above max(nvmax, 1) - 1, i.e. >= nvmax + 1 (the augmented column) *)
 Theorem nvmax_pad_spec : forall nvmax : Z, (0 <= nvmax)%Z ->
